@@ -35,6 +35,7 @@ RUN_PROFILES = {
     "react_parloop": dict(react=0.25, imm=0.0, w={"parloop": 3, "parallel": 2, "call": 2}, params=0.5),
     "react_junk": dict(react=0.25, junk=0.3, w={"parallel": 3}),
     "react_all": dict(react=0.3, react_all=True, imm=0.1, w={"parallel": 3, "call": 3}),
+    "listeners_imm": dict(listeners=0.4, observers=0.2, imm=0.4, w={"count": 3, "while": 1, "parallel": 2}),
     "observers": dict(observers=0.35, imm=0.0),
     "observers_loops": dict(observers=0.35, imm=0.0, w={"count": 3, "while": 2, "cond": 2}),
     "listeners": dict(listeners=0.4, imm=0.0),
@@ -73,7 +74,7 @@ PROPS = {
     "C17": dict(kind="run", proj="P_C17", mon="mon_C17", py_monitor="petri_net_notices",
                 profiles=["observers", "observers_loops"], quick=200, thorough=5000),
     "C20": dict(kind="run", proj="P_C20", mon="mon_C20",
-                profiles=["listeners"], quick=200, thorough=5000),
+                profiles=["listeners"], quick=200, thorough=5000, finding_profiles=["listeners_imm"]),
     # C13: expressions in isolation (kind expr) + guards evaluated repeatedly in running orders
     # (Conditions and loops re-evaluated against current values), compared on oracle queries
     "C13": dict(kind="expr", quick=600, thorough=20000, proj="P_C04", mon="mon_true",
